@@ -613,7 +613,7 @@ def run(rep, tier):
     rep.floor("tp_create paths", a, 4)
     rep.floor("tpt_msg_queue_create paths", b, 3)
     rep.floor("paths after a successful pipe2", descriptor_error_paths(rep, um), 2)
-    rep.floor("slot state marks in status functions", rollback_rule(rep, u), 2)
+    rep.floor("slot state marks in status functions", rollback_rule(rep, u), 1)    # (2 while tp_thread_dettach stored STOPING plainly; it is a CAS now)
     # tpt_data_init: failing event init must undo what was created
     fi = tp.need(u, "tpt_data_init")
     rep.functions.add(fi.name)
@@ -653,7 +653,7 @@ def run(rep, tier):
     st4 = tp.probe(tp.TP_C, {"STOPING": "TP_THREAD_STATE_STOPING"}, "probe:tpstate4")
     if st4.get("STOPING") is None:
         raise driver.AnalysisBroken("TP_THREAD_STATE_STOPING not foldable")
-    rep.floor("STOPING stores of the detach entry", c11_audit.detach_wake_rule(rep, u, st4), 1)
+    rep.floor("STOPING stores of the detach entry", c11_audit.detach_wake_rule(rep, u, st4), 3)
     race(rep, u)
     return driver.finish(
         rep, "other",
